@@ -3,6 +3,7 @@
 # then run the property's check against the worktree; logs in work/confirm-<ID>.log and work/seedcheck-<ID>.log
 for ID in "$@"; do
   /verif/tools/confirm_seed.sh $ID /tmp/seed/$ID /tmp/seed/$ID-out > /verif/work/confirm-$ID.log 2>&1
-  VERIF_REPO=/tmp/seed/$ID /verif/tools/devcheck.sh $ID quick > /verif/work/seedcheck-$ID.log 2>&1
+  PROP=$(echo $ID | sed 's/[a-z]$//')
+  VERIF_REPO=/tmp/seed/$ID /verif/tools/devcheck.sh $PROP quick > /verif/work/seedcheck-$ID.log 2>&1
   echo "$ID: $(grep -E 'BUILD|DEMO' /verif/work/confirm-$ID.log | tr '\n' ' ') :: $(tail -1 /verif/work/seedcheck-$ID.log | cut -c1-150)" >> /verif/work/seed-summary.log
 done
